@@ -47,6 +47,11 @@ Section TimeoutDict.
   (* timeoutdict.py:43-45 __setitem__ *)
   Definition td_setitem (T now : Z) (k : K) (v : V) (d : td) : td :=
     td_accessed T now k {| td_items := alist_set k v (td_items d); td_timer := td_timer d |}.
+  (* timeoutdict.py:47-49 pop: removes the item, not an access (the timer and _recently_accessed stay) *)
+  Definition alist_remove (k : K) (l : list (K * V)) : list (K * V) :=
+    filter (fun kv => negb (keqb (fst kv) k)) l.
+  Definition td_pop (k : K) (d : td) : td :=
+    {| td_items := alist_remove k (td_items d); td_timer := td_timer d |}.
   (* in-place mutation of a stored object (Python aliasing): the dict is not "accessed" *)
   Definition td_mutate (k : K) (v : V) (d : td) : td :=
     {| td_items := alist_set k v (td_items d); td_timer := td_timer d |}.
@@ -200,7 +205,7 @@ Definition feed_and_take (T now : Z) (assemblies : spool) (req : msg) : spool * 
     end
   end.
 
-(* blockwise.py:95-149 Block2Cache; [rendering] is what [response_builder()] returns if awaited *)
+(* blockwise.py:95-153 Block2Cache; [rendering] is what [response_builder()] returns if awaited *)
 Notation cache := (td key resp).
 Definition extract_or_insert (T now : Z) (completes : cache) (req : msg) (rendering : resp)
   : cache * list msg * R resp :=
@@ -226,7 +231,9 @@ Definition extract_or_insert (T now : Z) (completes : cache) (req : msg) (render
       let block2 := match m_block2 req with Some b2 => b2
                     | None => {| b_num := 0; b_more := false; b_szx := m_mbse req |} end in
       (completes2, calls, extract_block assembled (b_num block2) (b_szx block2) (m_mps req))
-    else (completes1, calls, ROk assembled)
+    else
+      (* the response is complete and supersedes whatever was kept for this key (blockwise.py:148-152) *)
+      (td_pop key_eqb block_key completes1, calls, ROk assembled)
   end.
 
 (* pipe.py:234-284 error_to_message + error.py to_message of the renderable errors *)
